@@ -5,7 +5,8 @@ Driver ops for C05: the documented formulas of Model/Families.lean evaluated at 
   RUN c05    <fam> <meth> <nθ θ…> <nx x…>   → OK <n values…> | ERR missingTable <name>
 
 fam: 0 Weibull(α,β,γ) 1 LogNormal(μ,σ) 2 Normal(μ,σ) 3 LogNormalNormFit(m,s) 4 ExpWeibull(α,β,δ)
-     5 GeneralizedGamma(m,c,λ) 6 VonMises(κ,μ);  meth: 0 cdf 1 icdf 2 pdf.
+     5 GeneralizedGamma(m,c,λ) 6 VonMises(κ,μ) 7 Gumbel(loc,scale) [ScipyDistribution subclass of
+     gumbel_r, no leaf];  meth: 0 cdf 1 icdf 2 pdf.
 Special functions are leaves looked up in TABLE lines (`Phi z`, `PhiInv p`, `P m t`, `PInv m p`,
 `Gamma m`, `I0 κ`, `V κ z`, `VInv κ p`), filled by the harness from scipy.special / the standard
 forms, independent of virocon.  `c05arg` returns, per x, the argument at which the model will
@@ -61,6 +62,8 @@ def c05Doc (fam meth : Nat) (θ : List Float) (leaf : Float → Float) (x : Floa
   | 6, [k, mu] => some (match meth with
       | 0 => vonMisesCdf leaf mu x | 1 => vonMisesIcdf leaf mu x
       | _ => vonMisesPdf T (leaf k) k mu x)
+  | 7, [loc, scale] => some (match meth with
+      | 0 => gumbelCdf T loc scale x | 1 => gumbelIcdf T loc scale x | _ => gumbelPdf T loc scale x)
   | _, _ => none
 
 /-- per-x argument of the leaf: run the model with the identity as leaf where the argument is
